@@ -95,6 +95,12 @@ class ValueWorld:
         if k == "dep":
             # identical terms are one annotation object (Dependent[...] creates a new type per call)
             b = t["bound"]
+            if b["k"] in ("lit", "dep"):
+                # a bound that is itself value-dependent
+                key = ("dep", json.dumps(b, sort_keys=True), tuple(t["holds"]))
+                if key not in self.tcache:
+                    self.tcache[key] = Dependent[self.real_type(b), self.pred(t)]
+                return self.tcache[key]
             if b["k"] == "union":
                 # the bound written as a union of classes: A | B or typing.Union[A, B]
                 key = ("dep", json.dumps(b, sort_keys=True), tuple(t["holds"]))
